@@ -193,6 +193,160 @@ def plan_queries(prop, tier, seed):
 
 
 # ---------------------------------------------------------------------------------------------
+# stand-alone Board sessions: C04 C05 (make/unmake walks) + the bounded model MC_Impl
+# ---------------------------------------------------------------------------------------------
+def session_payload(evs, line):
+    """The session prefix needed to re-execute a failing line: from the last reset up to it."""
+    i = line - 1
+    start = i
+    while start > 0 and evs[start].get("ev") != "reset":
+        start -= 1
+    if evs[i].get("ev") in ("reset", "make", "unmake"):
+        return {"session": evs[start:i + 1]}
+    return {}
+
+
+def ident_session(prop):
+    def f(ev, failed):
+        if ev is None:
+            return "unknown"
+        if ev.get("ev") == "hashpair":
+            return f"hashpair {ev['kind']} {chessfmt.pos_to_fen(ev['a']['pos'])} | {chessfmt.pos_to_fen(ev['b']['pos'])} :: {','.join(failed)}"
+        m = chessfmt.move_str(ev["m"]) if "m" in ev else "-"
+        return f"{ev.get('ev')} {m} -> {fen_of(ev)} :: {','.join(failed)}"
+    return f
+
+
+def classify_session(prop):
+    def f(ev):
+        if ev.get("ev") == "make":
+            m = ev["m"]
+            if m[0] != 1 or ev.get("exposed"):
+                return f"{fen_of(ev)} {m}"
+        if ev.get("ev") == "hashpair":
+            return f"hp {ev['kind']} {chessfmt.pos_to_fen(ev['a']['pos'])}"
+        return None
+    return f
+
+
+def split_sessions(evs):
+    out, cur = [], []
+    for ev in evs:
+        if ev.get("ev") == "reset":
+            if cur:
+                out.append(cur)
+            cur = [ev]
+        elif ev.get("ev") in ("make", "unmake") and cur:
+            cur.append(ev)
+    if cur:
+        out.append(cur)
+    return out
+
+
+def corruption_sessions(run, prop, src_dir, n=6):
+    """Flip one logged field inside otherwise genuine sessions; every corrupted session must be rejected."""
+    shards = sorted(glob.glob(os.path.join(src_dir, "shard_*.ndjson")))
+    sess = split_sessions(read_lines(shards[0])) if shards else []
+    bad = []
+    for s in sess:
+        want = "unmake" if prop == "C04" else "make"
+        idx = [i for i, e in enumerate(s) if e["ev"] == want]
+        if not idx:
+            continue
+        s = copy.deepcopy(s)
+        e = s[idx[len(idx) // 2]]
+        which = len(bad) % 3
+        if which == 0:
+            e["pos"]["hm"] = (e["pos"]["hm"] + 1) % 65536
+        elif which == 1:
+            e["der"]["hash"] = e["der"]["hash"][:-1] + ("0" if e["der"]["hash"][-1] != "0" else "1")
+        else:
+            a = e["der"]["all"]
+            e["der"]["all"] = a[1:] if a else [0]
+        bad.append(s)
+        if len(bad) >= n:
+            break
+    if not bad:
+        run.tool_error("corruption test: no session to corrupt")
+        return
+    d = fresh_dir(os.path.join(WORK, f"{prop}-corrupt"))
+    with open(os.path.join(d, "shard_0000.ndjson"), "w") as f:
+        for s in bad:
+            for ev in s:
+                f.write(json.dumps(ev) + "\n")
+    r = validate_shard(prop, os.path.join(d, "shard_0000.ndjson"))
+    # every corrupted session must contain at least one rejected line
+    evs = read_lines(os.path.join(d, "shard_0000.ndjson"))
+    starts = [i + 1 for i, e in enumerate(evs) if e["ev"] == "reset"] + [len(evs) + 1]
+    lines = {ln for ln, _ in r["nonconf"]}
+    caught = sum(1 for a, b in zip(starts, starts[1:]) if any(a <= ln < b for ln in lines))
+    run.extra["corruption_test"] = {"corrupted_sessions": len(bad), "rejected": caught}
+    if r["error"] or caught < len(bad):
+        run.tool_error(f"corruption test: only {caught} of {len(bad)} corrupted sessions were rejected\n{(r['error'] or '')[-1500:]}")
+
+
+def mc_impl(run, depth, first=None, last=None, timeout=3000):
+    """Engine MC: the refinement obligations between the two layers of the spec on the corpus model."""
+    env = {"DEPTH": depth, "EPFIX": 1}
+    if first:
+        env.update({"FIRST": first, "LAST": last})
+    r = run_tlc("MC_Impl", "MC_Impl.cfg", env=env, workers=NCPU, xmx="12g", timeout=timeout, tag=f"mcimpl-{run.prop}",
+                gc_threads=4)
+    if "Model checking completed. No error has been found" not in r["out"]:
+        run.tool_error("MC_Impl: the implementation-shaped layer does not refine the reference layer, or TLC failed "
+                       "(a defect of the model, to be triaged against the code):\n" + r["out"][-3000:])
+        return
+    run.states += r["distinct"]
+    run.transitions += r["generated"]
+    run.extra["mc_impl"] = {"depth": depth, "distinct_states": r["distinct"], "states_generated": r["generated"],
+                            "invariants": ["Inv_C05", "Inv_C04", "Inv_C03", "Inv_Legal", "Inv_Valid"],
+                            "wall_s": round(r["wall"], 1)}
+
+
+SESSION_SIZES = {"C04": (260, 12000), "C05": (220, 10000)}
+RULES["C04"] = "sessions = nested make/unmake walks (DFS-shaped, all semilegal moves incl. king-exposing ones, null move) and exhaustive one-ply make+unmake of every semilegal move, from corpus/playout/placement/mutation positions; full projected state (6 raw fields, hash, 16 sets) logged after every step; non-trivial = distinct (position, move) with a special kind (castling, double, e.p., promotion, null) or king-exposing"
+RULES["C05"] = "same sessions; every logged state checked (hash = scratch hash, 16 sets = sets rebuilt by the spec from the squares, key->hash functional and injective within the session) + hash pairs (same key/different counters, single-feature differences: one cell, side, one right, e.p. file); non-trivial as for C04 plus each distinct hash pair"
+
+
+def plan_sessions(prop, tier, seed):
+    run = Run(prop, tier, seed, "model_checking")
+    run.rule = RULES[prop]
+    run.assumptions = [
+        "spec/BoardImpl.tla transcribes do_make_move/do_unmake_move; TLC checks on the bounded model MC_Impl that it refines the reference layer (Rules!ApplyMove, Scratch) and that unmake inverts make",
+        "hash values are compared as opaque 64-bit strings; collisions between unrelated positions are outside the statement",
+        "bounded: the listed sessions and the MC_Impl depth, not all histories",
+    ]
+    try:
+        binary = build_harness("checked")
+    except ToolError as e:
+        run.tool_error(str(e))
+        return run.finish()
+    n = SESSION_SIZES[prop][0 if tier == "quick" else 1]
+    out = fresh_dir(os.path.join(WORK, f"{prop}-{tier}"))
+    cap = 700 if tier == "quick" else 3000
+    t0 = time.time()
+    rc, txt = run_harness(binary, ["gen", prop, n, seed, out, cap])
+    log(f"[gen] {txt.strip().splitlines()[-1] if txt.strip() else ''} rc={rc} in {time.time() - t0:.1f}s")
+    if rc != 0:
+        wal = os.path.join(out, "wal.json")
+        if os.path.exists(wal):
+            w = json.load(open(wal))
+            run.violation("crash:" + json.dumps(w), {"engine": "i2s", "crash": w, "output": txt[-2000:]},
+                          "the library aborted the process on this input")
+        else:
+            run.tool_error("harness gen failed:\n" + txt[-3000:])
+            return run.finish()
+    res = validate_dir(prop, out)
+    run.add_trace_results(res, ident_session(prop), classify_session(prop), session_payload)
+    corruption_sessions(run, prop, out)
+    # the model by itself (after the traces: 16 TLC workers would starve the validators)
+    mc_impl(run, 1 if tier == "quick" else 2)
+    if len(run.nontrivial) < 2:
+        run.tool_error("vacuous coverage: fewer than 2 non-trivial cases")
+    return run.finish()
+
+
+# ---------------------------------------------------------------------------------------------
 # replay of a recorded violation against the current code
 # ---------------------------------------------------------------------------------------------
 def replay(prop, path):
@@ -230,6 +384,7 @@ def replay(prop, path):
 
 
 PLANS = {p: plan_queries for p in ("C01", "C03", "C06", "C07", "C16")}
+PLANS.update({"C04": plan_sessions, "C05": plan_sessions})
 
 
 def run(prop, tier, seed):
